@@ -283,6 +283,67 @@ theorem module_start_preserves (w : World) (principal : String) (a d : Bool) :
     | true => rw [if_pos rfl]; exact start_preserves w _ d
     | false => rw [if_neg (by simp)]; exact markPrincipal_extends _ _
 
+/-- … and so does a start without `--autocreate`/`--defaults` -/
+theorem simple_start_preserves (w : World) (principal : String) (a d : Bool) :
+    Extends w (bootSimple w principal a d) := by
+  unfold bootSimple
+  split
+  · exact start_preserves w _ d
+  · exact markPrincipal_extends _ _
+
+theorem createIfAbsent_principals (w : World) (p : String) (ct : Option (CType × String)) :
+    (w.createIfAbsent p ct).principals = w.principals := by
+  unfold World.createIfAbsent
+  split
+  · rfl
+  · split <;> rfl
+
+theorem addDir_principals (w : World) (q : String) : (w.addDir q).principals = w.principals := by
+  unfold World.addDir
+  split <;> rfl
+
+theorem makedirs_principals (w : World) (p : String) : (w.makedirs p).principals = w.principals := by
+  unfold World.makedirs
+  rw [addDir_principals]
+  generalize ancestors p = l
+  induction l generalizing w with
+  | nil => rfl
+  | cons q t ih => rw [List.foldl_cons, ih, addDir_principals]
+
+theorem markPrincipal_mem (w : World) (P : String) : P ∈ (w.markPrincipal P).principals := by
+  unfold World.markPrincipal
+  by_cases h : w.principals.contains P = true
+  · simp only [h, ↓reduceIte]
+    exact List.contains_iff_mem.mp h
+  · simp only [h, Bool.false_eq_true, ↓reduceIte]
+    exact List.mem_cons_self ..
+
+theorem bootAt_marks (w : World) (P : String) (d : Bool) : P ∈ (bootAt w P d).principals := by
+  cases d with
+  | false =>
+    show P ∈ ((((if w.isDirPath P then w else w.makedirs P).markPrincipal P).createIfAbsent
+      (Path.joinS P addressbookHomeSet) none).createIfAbsent (Path.joinS P calendarHomeSet) none).principals
+    rw [createIfAbsent_principals, createIfAbsent_principals]
+    exact markPrincipal_mem _ P
+  | true =>
+    show P ∈ (((((((if w.isDirPath P then w else w.makedirs P).markPrincipal P).createIfAbsent
+      (Path.joinS P addressbookHomeSet) none).createIfAbsent (Path.joinS P calendarHomeSet) none).createIfAbsent
+      (Path.joinS (Path.joinS P calendarHomeSet) "calendar") (some (.calendar, "calendar"))).createIfAbsent
+      (Path.joinS (Path.joinS P addressbookHomeSet) "addressbook") (some (.addressbook, "addressbook"))).createIfAbsent
+      (Path.joinS P inboxName) (some (.inbox, "schedule-inbox"))).principals
+    rw [createIfAbsent_principals, createIfAbsent_principals, createIfAbsent_principals,
+      createIfAbsent_principals, createIfAbsent_principals]
+    exact markPrincipal_mem _ P
+
+/-- a start always leaves the configured principal marked as principal — also one without any
+    creation flag (what discovery after such a restart depends on) -/
+theorem start_marks_principal (w : World) (principal : String) (a d : Bool) :
+    principalPath principal ∈ (bootSimple w principal a d).principals := by
+  unfold bootSimple
+  split
+  · exact bootAt_marks w _ d
+  · exact markPrincipal_mem w _
+
 /-- a new server process forgets caches only: members and history of every repository stay -/
 theorem restart_keeps_contents (w : World) (p : String) (c : Coll) (h : w.colls[p]? = some c) :
     ∃ c', (w.restart).colls[p]? = some c' ∧ c'.st.files = c.st.files ∧ c'.st.commits = c.st.commits ∧
